@@ -65,6 +65,9 @@ def generate(rng, i, tier):
             modes["unmatched-mode"] = "keep"
         if rng.random() < 0.1:
             modes["run-mode"] = "no-run"
+        if rng.random() < 0.12:
+            # files-mode names the result files the member is expected to leave; whether they are there is a flag in its manifest
+            modes["files-mode"] = rng.choice(["all", "data", "data, unmatched", "printouts", "unmatched", "data, printouts, unmatched"])
         transfer = rng.random() < 0.1
         if transfer:
             # after the run the member's data.csv is copied to transfers/<value of the variable>; when there is no
@@ -456,6 +459,7 @@ def execute(sc):
         out.probe("archived member file larger than 64 KiB", any(len(c) > 65536 for r in sc["rows"] for c in r))
         out.probe("transfer that could not be made (run raised)", False)
         out.probe("member that prints to a named printer", any('"audit")' in c for m in sc["members"] for c in m["comps"]))
+        out.probe("member with files-mode", any("files-mode" in (m.get("modes") or {}) for m in sc["members"]))
         out.probe("member with transfer-mode", any("transfer-mode" in (m.get("modes") or {}) for m in sc["members"]))
         out.probe("member with run-mode: no-run", any((m.get("modes") or {}).get("run-mode") == "no-run" for m in sc["members"]))
         out.log("tree", _digest_tree(checked_dirs))
